@@ -827,7 +827,10 @@ def instances(tier):
     maxn = 3 if tier == 'quick' else 4
     for key, cgi in sorted(_parser_table().items()):
         slow = any(w in key for w in ('ast_from_string', 'datetime_or_none', 'float_or_none', '_drm_selection', '_errors_from'))
-        for n in range(0, maxn + (0 if not slow else -1) + 1):
+        top = maxn - 1 if slow else maxn
+        if any(w in key for w in ('ast_from_string', 'datetime_or_none')):
+            top = min(top, 2)        # three symbolic characters through three strptime formats ran past 10 minutes
+        for n in range(0, top + 1):
             out.append({'name': f'opt[{key},{n}]', 'fn': h_opt, 'params': {'cgi_name': cgi, 'n': n},
                         'opts': {'max_paths': 60000, 'max_decisions': 400, 'fork_limit': 130},
                         'weight': 5 ** n})
@@ -884,7 +887,7 @@ def instances(tier):
                     out.append({'name': f'mp4[{name},{path}@{start},{"lazy" if lazy else "eager"},{mode}]', 'fn': h_mp4,
                                 'params': {'name': name, 'box': k, 'lazy': lazy, 'mode': mode},
                                 'opts': {'max_paths': 6000, 'max_decisions': 3000, 'fork_limit': 1 << 20, 'time_budget_s': 300}, 'weight': 20})
-    for name in (['moov', 'tseg', 'ebuttd'] if tier == 'quick' else MP4_FILES_T):
+    for name in (['moov', 'tseg', 'ebuttd'] if tier == 'quick' else ['moov', 'tseg', 'ebuttd', 'aseg', 'moov-v1', 'emsg-boxes', 'tseg-trun-all', 'eac3-moov']):
         _, words = _payload_words(name)
         for k, w in enumerate(words):
             for lazy in ((False,) if tier == 'quick' else (False, True)):
